@@ -1,5 +1,6 @@
 import Lean.Data.Json
 import Clover.Spec.Spec
+import Clover.Model.GoVal
 /-! JSON line protocol: parsing of cases, canonical printing of results (driver only; not part of
     the model the theorems are about) -/
 namespace CV.Driver
@@ -104,6 +105,39 @@ partial def parseCrit (j : Json) : Except String Crit := do
     return .or (← parseCrit a[0]!) (← parseCrit a[1]!)
   if let .ok c := j.getObjVal? "not" then return .not (← parseCrit c)
   throw s!"bad criteria {j.compress}"
+
+partial def parseGoVal (j : Json) : Except String GoVal := do
+  let g ← getStr j "g"
+  match g with
+  | "nil" => pure .nilIface
+  | "int" => pure (.int (← parseInt (← getStr j "v")))
+  | "uint" => pure (.uint (← parseInt (← getStr j "v")).toNat)
+  | "float" => pure (.float (← hexNat (← getStr j "bits")))
+  | "str" => pure (.str (← getHex j "v"))
+  | "bool" => pure (.bool (← (← j.getObjVal? "v").getBool?))
+  | "time" =>
+    let a ← getArr j "v"
+    pure (.time (← parseInt (← a[0]!.getStr?)) (← parseInt (← a[1]!.getStr?)))
+  | "ptr" =>
+    let v ← j.getObjVal? "v"
+    if v.isNull then pure (.ptr none) else pure (.ptr (some (← parseGoVal v)))
+  | "list" => pure (.list (← (← getArr j "v").toList.mapM parseGoVal))
+  | "map" =>
+    if (← getStr j "key") != "string" then pure .otherMap else
+    let kvs ← (← getArr j "v").toList.mapM (fun p => do
+      let pa ← p.getArr?
+      pure ((← fromHex (← pa[0]!.getStr?)), (← parseGoVal pa[1]!)))
+    pure (.strMap kvs)
+  | "struct" =>
+    let fs ← (← getArr j "fields").toList.mapM (fun fj => do
+      let name ← getHex fj "name"
+      let tagName := (getHex fj "tag").toOption.getD []
+      let omitE := ((fj.getObjVal? "omitempty").toOption.bind (·.getBool?.toOption)).getD false
+      let exported := ((fj.getObjVal? "exported").toOption.bind (·.getBool?.toOption)).getD true
+      let embedded := ((fj.getObjVal? "embedded").toOption.bind (·.getBool?.toOption)).getD false
+      pure (({ name, tagName, omitempty := omitE, exported, embedded } : GoField), (← parseGoVal (← fj.getObjVal? "v"))))
+    pure (.struct fs)
+  | _ => pure .unsupported
 
 def parseRange (j : Json) : Except String Range := do
   let start ← parseValue (← j.getObjVal? "start")
